@@ -8,7 +8,12 @@
    of the protocol documentation (ASSUME Vectors) and against real transactions / a real block.
 2. spec -> code: every codec case (streamer.pack_struct / parse_struct) and every message case
    (network.message.pack / parse) TLC prints is executed on pycoin: bytes compared with the spec's,
-   parse result compared field by field.
+   parse result compared field by field.  merkleblock cases carry the proofs of an honest BIP37 prover
+   for every block size / traversal size (MC_P2PMerkle over C14's PartialMerkle.tla; hash terms
+   evaluated with hashlib).  Sessions (MC_P2PSession over spec/P2PSession.tla): every sequence of
+   steps - packs, updates of long-lived address / header / transaction objects, calls outside the
+   property's quantifier that are refused half way - on ONE codec, each pack compared with the
+   answer the (history-free) standard demands.
 3. code -> spec: seeded random messages (long arrays, random values, real transactions and blocks) are
    packed and parsed by pycoin; the log is validated by TLC against spec/Trace_P2P.tla.
 4. binding self-tests: a corrupted expected byte / a corrupted logged field must be rejected.
@@ -68,11 +73,60 @@ def real_data():
     return legacy, segwit, blocks
 
 
-def write_pool(txs, blocks):
+def write_pool(txs, blocks, proofs=()):
     fd, path = tempfile.mkstemp(prefix="vf-c16-pool-", suffix=".json")
     with os.fdopen(fd, "w") as f:
-        json.dump({"tx": [rle(t) for t in txs], "block": [rle(b) for b in blocks]}, f)
+        json.dump({"tx": [rle(t) for t in txs], "block": [rle(b) for b in blocks],
+                   "merkle": [{"n": p["n"], "hashes": [rle(h) for h in p["hashes"]], "flags": list(p["flags"]), "root": rle(p["root"])}
+                              for p in proofs]}, f)
     return path
+
+
+# ---------------------------------------------------------------- merkleblock: proofs of an honest prover
+
+def _ev_term(t, leaf):
+    """hash term of spec/Merkle.tla -> bytes (leaf: index -> 32 bytes)"""
+    if t["op"] == "leaf":
+        return leaf(t["i"])
+    if t["op"] == "h256d":
+        return _sha256d(_ev_term(t["l"], leaf) + _ev_term(t["r"], leaf))
+    raise MachineryError("unknown hash term %r" % t["op"])
+
+
+def merkle_proofs(ctx, salt=b""):
+    """MC_P2PMerkle: one partial merkle tree per block size and traversal size (PartialMerkle.Build), each accepted by
+    the BIP37 verifier state machine (lemma Accepted).  The hash terms are evaluated here; R2: the root term must be
+    what hashlib gives level by level for the same leaves."""
+    q = ctx.quick
+    recs, meta = [], {}
+
+    def on(rec):
+        if rec.get("k") == "proof":
+            recs.append(rec)
+        elif rec.get("k") == "nproofs":
+            meta["n"] = rec["n"]
+    ctx.tlc("MC_P2PMerkle", "MC_P2PMerkle_q" if q else "MC_P2PMerkle_t", workers=4, on_record=on, keep_records=False, timeout=1800)
+    if not recs or meta.get("n") != len(recs) or any(r["verdict"] != "accept" for r in recs):
+        raise MachineryError("MC_P2PMerkle: %d proofs printed, %s expected" % (len(recs), meta.get("n")))
+
+    def leaf(i):
+        return hashlib.sha256(b"C16 leaf|%d|%d|" % (ctx.seed, i) + salt).digest()
+    out = []
+    for r in sorted(recs, key=lambda r: (r["n"], r["bits"])):
+        root = _ev_term(r["root"], leaf)
+        if root != _merkle([leaf(i) for i in range(1, r["n"] + 1)]):
+            raise MachineryError("merkle root term of %d leaves disagrees with hashlib" % r["n"])
+        flags = D.seq(r["flags"])
+        if len(flags) != (r["bits"] + 7) // 8:
+            raise MachineryError("flag bytes of a %d-bit traversal: %r" % (r["bits"], flags))
+        out.append({"n": r["n"], "bits": r["bits"], "hashes": [_ev_term(h, leaf) for h in D.seq(r["hashes"])],
+                    "flags": flags, "root": root, "matched": len(D.seq(r["matched"]))})
+    ctx.extra["merkleblock_proofs"] = {"count": len(out), "block_sizes": sorted({p["n"] for p in out}),
+                                       "flag_bits": sorted({p["bits"] for p in out})}
+    ctx.log("merkleblock: %d honest proofs (block sizes %d..%d, %d..%d flag bits; whole flag bytes: %s)" % (
+        len(out), min(p["n"] for p in out), max(p["n"] for p in out), min(p["bits"] for p in out), max(p["bits"] for p in out),
+        sorted({p["bits"] for p in out if p["bits"] % 8 == 0})))
+    return out
 
 
 def fidelity(ctx, real):
@@ -144,8 +198,8 @@ def _rand_ip(rnd):
 
 
 class Gen:
-    def __init__(self, rnd, real, big):
-        self.rnd, self.big = rnd, big
+    def __init__(self, rnd, real, big, proofs=()):
+        self.rnd, self.big, self.proofs = rnd, big, list(proofs)
         self.legacy, self.segwit, self.blocks = real
 
     def tx(self):
@@ -222,6 +276,10 @@ class Gen:
         rnd = self.rnd
         if name == "merkleblock":      # only a well-formed partial merkle tree is parsed (C14 owns the rest)
             h = self.header()
+            if self.proofs and rnd.random() < 0.8:      # a proof of MC_P2PMerkle under a random header
+                p = rnd.choice(self.proofs)
+                return {"header": h[:2] + (p["root"],) + h[3:], "total_transactions": p["n"],
+                        "hashes": tuple(p["hashes"]), "flags": tuple(p["flags"])}
             return {"header": h, "total_transactions": 1, "hashes": (h[2],), "flags": (rnd.choice([0, 1]),)}
         return {n: self.field(t) for n, t in layout}
 
@@ -229,12 +287,29 @@ class Gen:
 TRACE_SYMS = ("BTC", "XTN", "LTC")      # XTN shares BTC's Tx class; LTC has Tx and Block classes of its own
 
 
-def record_traces(seed, count, big, layouts, real):
+def _ill_call(rnd, M, name, lay, kwargs):
+    """a call outside the property's quantifier on the same codec (its outcome is free, nothing is logged): the last
+    keyword missing, or a number below its range"""
+    bad = dict(kwargs)
+    nums = [n for n, t in lay if t in ("L", "Q", "1", "h") and n in bad]
+    if nums and rnd.random() < 0.5:
+        bad[nums[-1]] = -1
+    else:
+        del bad[lay[-1][0]]
+    D.guarded((name, "illpack"), M.pack, name, **bad)
+
+
+def record_traces(seed, count, big, layouts, real, proofs=(), stats=None):
     """drive pycoin on random messages; log what it did (no expectation is computed here).
     Messages that carry headers / blocks / transactions go to BTC, XTN and LTC in turn (all imported in this process).
+    The codec of a network is one object for the whole recording; address and header objects live on between
+    messages and are updated in place (drv.p2p.Live); now and then a call the codec has to refuse is made in between.
     -> list of events; an event that cannot be logged carries "direct" = (key suffix, what)."""
     rnd = random.Random(seed)
-    g = Gen(rnd, real, big)
+    g = Gen(rnd, real, big, proofs)
+    live = D.Live(random.Random(seed + 1))
+    rill = random.Random(seed + 2)
+    nill = 0
     names = sorted(n for n in layouts if n != "alert_info")
     # an auxiliary packer for the structure inside alert.payload, from the SPEC's layout of it
     from pycoin.message.make_parser_and_packer import make_parser_and_packer
@@ -263,12 +338,16 @@ def record_traces(seed, count, big, layouts, real):
             fields = g.message(name, lay)
         ev["fields"] = fields
         ev["inner"] = inner
+        live.begin()
         try:
-            kwargs = {n: D.api_field_from_plain(t, fields[n], v4form=(k % 2 == 0)) for n, t in lay}
+            kwargs = {n: D.api_field_from_plain(t, fields[n], v4form=(k % 2 == 0), live=live) for n, t in lay}
         except Exception as e:
             ev["direct"] = ("construct|exc=" + type(e).__name__, repr(e)[:300])
             evs.append(ev)
             continue
+        if lay and rill.random() < 0.2:
+            _ill_call(rill, M, name, lay, kwargs)
+            nill += 1
         r = D.guarded((name, "pack"), M.pack, name, **kwargs)
         if r[0] == "skipped":
             continue
@@ -307,6 +386,9 @@ def record_traces(seed, count, big, layouts, real):
             ev["direct"] = ("parse|alert_info|missing", repr(e))
         evs.append(ev)
     D.use("BTC")
+    if stats is not None:
+        stats["objects_updated_in_place"] = stats.get("objects_updated_in_place", 0) + live.updated
+        stats["refused_calls_in_between"] = stats.get("refused_calls_in_between", 0) + nill
     return evs
 
 
@@ -358,11 +440,13 @@ def _trace_key(ev, why):
     return "C16|%s|%s|rejected|failed=%s|field=%s%s" % (_ttag(ev), ev["name"], failed, fld, extra)
 
 
-def _traces(ctx, layouts, real):
+def _traces(ctx, layouts, real, proofs=()):
     q = ctx.quick
     n = 480 if q else 3000
-    evs = record_traces(ctx.seed * 104729 + 16, n, False, layouts, real)
-    evs += record_traces(ctx.seed * 104729 + 160, n // 8, True, layouts, real)
+    stats = {}
+    evs = record_traces(ctx.seed * 104729 + 16, n, False, layouts, real, proofs, stats)
+    evs += record_traces(ctx.seed * 104729 + 160, n // 8, True, layouts, real, proofs, stats)
+    ctx.extra["trace_history"] = stats
     ctx.case(None, len(evs))
     logged = []
     for e in evs:
@@ -456,6 +540,75 @@ def _mutate_abs(t, v):
     raise ValueError(l)
 
 
+# ---------------------------------------------------------------- sessions: one codec, long-lived objects
+
+def _sessions(ctx, pool):
+    """MC_P2PSession enumerates every session over its alphabet.  -> [(alphabet, sessions)] per family"""
+    out = []
+    for cfg in (("MC_P2PSession_q",) if ctx.quick else ("MC_P2PSession_t", "MC_P2PSession_t4")):
+        alpha, sessions = {}, []
+
+        def on(rec, alpha=alpha, sessions=sessions):
+            if rec.get("k") == "alphabet":
+                alpha.update(rec)
+            elif rec.get("k") == "session":
+                sessions.append(rec)
+        ctx.tlc("MC_P2PSession", cfg, workers=4, env={"P2P_POOL": pool}, on_record=on, keep_records=False, timeout=3000)
+        if not alpha or not sessions or len(sessions) != alpha.get("nsessions"):
+            raise MachineryError("%s: %d sessions printed, the alphabet announces %s" % (cfg, len(sessions), alpha.get("nsessions")))
+        alpha["steps"] = D.seq(alpha["steps"])
+        out.append((alpha, sessions))
+    return out
+
+
+def _run_sessions(ctx, pool):
+    """every session executed in order on the BTC codec of this process (one object for the whole run) with one API
+    object per store entry.  -> the first family (it also goes to the other networks)"""
+    stats = {}
+    families = _sessions(ctx, pool)
+    fails = {}
+    kept = []
+    total = 0
+    for alpha, sessions in families:
+        kinds = [D.step_kind(st) for st in alpha["steps"]]
+        for se in sessions:
+            steps = D.seq(se["steps"])
+            ctx.case(("session",) + tuple(kinds[k - 1] for k in steps))
+            ctx.action("replay.session." + kinds[steps[-1] - 1])
+            f = D.run_session(alpha, se, "BTC", stats)
+            for key, what, detail in f:
+                fails.setdefault(key, (what, detail))
+            if not f and len(kept) < 2 and _stale_candidate(alpha, steps, se):
+                kept.append((alpha, se))
+        total += len(sessions)
+        ctx.extra.setdefault("sessions", []).append({"steps_per_session": alpha["slen"], "alphabet": kinds, "sessions": len(sessions)})
+    ctx.replayed += total
+    ctx.extra["session_calls_outside_the_quantifier"] = stats
+    ctx.log("sessions: %d executed on one codec, %d disagreement classes; %d of %d calls outside the quantifier were refused" % (
+        total, len(fails), stats.get("ill_raised", 0), stats.get("ill_calls", 0)))
+    for key, (what, detail) in fails.items():
+        ctx.fail(key, what, detail)
+    # binding self-tests on a session pycoin passed: [pack m(o), set o.x, pack m(o)]
+    if not kept:
+        ctx.selftests["session_rejects_corrupted_expected_bytes"] = "skipped (pycoin passed no such session)"
+        ctx.selftests["session_rejects_stale_answer"] = "skipped (pycoin passed no such session)"
+        return families[0]
+    alpha, se = kept[0]
+    bad = copy.deepcopy(se)
+    bad["ans"][0]["bytes"] = ["ff"] + D.seq(bad["ans"][0]["bytes"])
+    ctx.selftest("session_rejects_corrupted_expected_bytes", any("|pack|bytes-differ" in k for k, _, _ in D.run_session(alpha, bad)))
+    bad = copy.deepcopy(se)
+    bad["ans"][2] = copy.deepcopy(bad["ans"][0])      # what the object held when it was packed first
+    f = D.run_session(alpha, bad)
+    ctx.selftest("session_rejects_stale_answer", any("history=pack+set|pack|bytes-differ" in k for k, _, _ in f))
+    return families[0]
+
+
+def _stale_candidate(alpha, steps, se):
+    a, b, c = (alpha["steps"][k - 1] for k in steps[:3]) if len(steps) >= 3 else (None, None, None)
+    return bool(a) and a["op"] == "pack" and b["op"] == "set" and steps[0] == steps[2] and se["ans"][0] != se["ans"][2]
+
+
 # ---------------------------------------------------------------- several networks in one process, both import orders
 
 ORDER = ["BTC", "XTN", "LTC", "XLT", "BTG", "XTG"]
@@ -463,7 +616,7 @@ DRIVE = ["BTC", "XTN", "LTC", "XLT", "XTG"]     # Bitcoin header format: the spe
 NATIVE = ["BTG"]                                # a header format of its own: format-independent check only
 
 
-def _multi_network(ctx, carriers):
+def _multi_network(ctx, carriers, session_family=None):
     """BTC/XTN/XLT share one Tx class, BTG/XTG another, LTC has its own; each network has its own block class.
     Fresh subprocess per import order; all networks imported first, then every header / block / tx carrying case
     on each: the spec's bytes, and objects of THAT network's classes."""
@@ -473,7 +626,10 @@ def _multi_network(ctx, carriers):
     for order in (ORDER, ORDER[::-1]):
         fd, path = tempfile.mkstemp(prefix="vf-c16-multi-", suffix=".json")
         with os.fdopen(fd, "w") as f:
-            json.dump({"order": order, "drive": DRIVE, "native": NATIVE, "cases": carriers, "tripped": sorted(D.TRIPPED)}, f)
+            job = {"order": order, "drive": DRIVE, "native": NATIVE, "cases": carriers, "tripped": sorted(D.TRIPPED)}
+            if session_family and order == ORDER:      # the sessions once per network (the codec is per network)
+                job["sessions"] = {"alphabet": session_family[0], "sessions": session_family[1]}
+            json.dump(job, f)
         p = subprocess.Popen([sys.executable, "-m", "vf.drv.p2p_multi", path], stdout=subprocess.PIPE, stderr=subprocess.PIPE, text=True)
         jobs.append((order, path, p))
     total = 0
@@ -517,6 +673,10 @@ def replay(ctx, obj):
         fails = D.check_msg_record(rec, d.get("network", "BTC"))
     elif isinstance(rec, dict) and rec.get("k") == "codec":
         fails = D.check_codec_record(rec)
+    elif isinstance(rec, dict) and rec.get("k") == "session":
+        for sym in d.get("import_order") or []:
+            D.network(sym)
+        fails = D.run_session(d["alphabet"], rec, d.get("network", "BTC"))
     else:
         print(json.dumps(obj, indent=1)[:4000])
         print("(a recorded session: re-run ./check C16 with the same VERIF_SEED to reproduce it)")
@@ -548,16 +708,22 @@ def run(ctx):
                 + ("" if q else " / every pair of fields") + "; arrays of 0,1,2,253" + ("" if q else ",252,254,300")
                 + " elements) packed by P2PMsg.Pack, parsed by the state machine P2PParse (lemmas in every state) and executed on "
                 "pycoin's network.message.pack/parse, plus every boundary value of every type letter through the streamer; "
-                "distinct_nontrivial = distinct (message, per field: type and size class 0/<253/<65536/>=65536 of its encoding) "
-                "and (letter, value) for codec cases")
+                "merkleblock: one honest BIP37 proof per block size 1..%d and traversal size (MC_P2PMerkle); sessions: every sequence of %s "
+                "steps of MC_P2PSession's alphabet (packs, updates of long-lived address / header / transaction objects, calls outside "
+                "the quantifier) on one codec; "
+                "distinct_nontrivial = distinct (message, per field: type and size class 0/<253/<65536/>=65536 of its encoding), "
+                "(letter, value) for codec cases and the sequence of step kinds for sessions" % ((9, "3") if q else (12, "3 (wide alphabet) / 4")))
     ctx.assumptions += ["field names are pycoin's (the keyword API); types, order and encodings are the standard's (protocol documentation, BIPs 31/35/37/61/130/133/144/152/155)",
                         "the full grid and the codecs on the BTC network object; the header / block / tx carrying messages also on XTN, LTC, XLT, XTG (all six networks incl. BTG imported in one fresh process, both import orders; BTG, whose header format is its own, format-independent check only); traces on BTC, XTN, LTC; embedded transactions have >= 1 input; blocks have >= 1 transaction and a correct merkle root (real block of tests/ and blocks assembled from real transactions, root by hashlib)",
-                        "merkleblock: only one-transaction partial merkle trees (the parser verifies the tree; C14 owns it); alert: only well-formed payloads",
+                        "merkleblock: only proofs an honest BIP37 prover sends (the parser verifies the tree; corrupted proofs and tx_hashes are C14's); alert: only well-formed payloads",
+                        "long-lived objects: PeerAddress, block header and Tx objects are plain mutable records (public attributes, Block.set_nonce); a message carries the value an object holds when it is packed. InvItem (hashable) is not updated in place",
+                        "calls outside the property's quantifier (missing keyword, number out of range, value of another kind, truncated payload) may do anything themselves; they are made between the observed calls",
                         "array counts up to 300 in the grid and about 2,200 in traces; strings up to 70,000 bytes; counts >= 2^31 out of reach of TLC integers",
                         "getblocktxn / prefilled indexes are the differentially encoded compact sizes as they are on the wire",
                         "TLC/SANY, CPython"]
     real = real_data()
-    pool = write_pool([real[0][0], real[1][0]], real[2][:3])
+    proofs = merkle_proofs(ctx)
+    pool = write_pool([real[0][0], real[1][0]], real[2][:3], proofs)
     try:
         real_abs = fidelity(ctx, real)
         # ---- 1/2. codecs: lemmas + spec -> code at the streamer level; layouts
@@ -655,12 +821,15 @@ def run(ctx):
                 ctx.selftest("replay_rejects_corrupted_expected_field", any("|parse|field=" + pf[0]["n"] in k for k, _, _ in f))
         for key, what, detail in fails:
             ctx.fail(key, what, detail)
+        family = None
+        if not only or "session" in only:
+            family = _run_sessions(ctx, pool)
         if not only or "msg" in only:
-            _multi_network(ctx, carriers)
+            _multi_network(ctx, carriers, family)
 
         # ---- 3. code -> spec
         if not only or "traces" in only:
-            _traces(ctx, layouts, real_abs)
+            _traces(ctx, layouts, real_abs, proofs)
     finally:
         os.unlink(pool)
     if D.TRIPPED:
